@@ -19,7 +19,7 @@ FUNCTIONS = ["RDMol2StereoMolGraph.smg_from_rdmol", "RDMol2StereoMolGraph.__call
              "_tbp_atom_order_permutation_dict", "_oct_atom_order_permutation_dict", "_rd_tetrahedral"]
 BOUNDS = {"quick": "one stereogenic unit: tetrahedral centre (4 ligands; 3 ligands + lone pair), square planar, trigonal bipyramidal, octahedral centre with pairwise distinct ligands, one "
                    "double bond XYC=CZW, one imine X-N=CYZ (lone pair; every choice of the atom with RDKit index 0); representation A: all neighbour orders for Tet/SP, strided for TBP/Oct, all labels; B: all labels under A's order, 12 other orders, "
-                   "3 RenumberAtoms permutations, 4 random SMILES spellings (seeded); option flags use_atom_map_number / stereo_complete / lone_pair_stereo; whole molecules with explicit H (20 SMILES: ring double bonds, allyl-type ions, carboxylate, amidinium, nitroalkene, dienes, one or two stereo units) imported with the from_rdmol defaults (resonance merging on) under 24 seeded RDKit renumberings each, and through a converter object reused across molecules vs a fresh one",
+                   "3 RenumberAtoms permutations, 4 random SMILES spellings (seeded); option flags use_atom_map_number / stereo_complete / lone_pair_stereo; whole molecules with explicit H (22 SMILES: ring double bonds, SF5 groups, allyl-type ions, carboxylate, amidinium, nitroalkene, dienes, one or two stereo units) imported with the from_rdmol defaults (resonance merging on) under 24 seeded RDKit renumberings each, and through a converter object reused across molecules vs a fresh one",
           "thorough": "all neighbour orders for TBP, 144 for Oct; 48 other orders; 120 renumberings per molecule"}
 OUTSIDE = ("whole molecules other than the 20 listed ones (several interacting stereo units, ring-cis inference, resonance merging in general: RDKit C++ behaviour); "
            "'same stereoisomer' is what RDKit's canonical isomeric SMILES says")
@@ -245,7 +245,8 @@ def imine(first, ez, sa, oi):
 
 WHOLE = ["C1=CCCC1", "C1=CCCCC1", "CC1=CCC1", "C/C=C/[CH2+]", "C/C=C\\[CH2+]", "CC(=O)[O-]", "C/C=C/C", "C/C=C\\C", "CC(N)=[NH2+]", "C[C@H](F)Cl",
          "c1ccccc1", "C/C=C/[O-]", "C1=CC=CCC1", "C/C=C/C=C/C", "[CH2-]/C=C/C", "C[C@@H](O)/C=C/C", "C1=C[CH+]C1", "O=C1C=CCC1", "C/C=C/[N+](=O)[O-]",
-         "F/C=C/C1=CCCC1"]
+         "F/C=C/C1=CCCC1",
+         "CS(F)(F)(F)(F)F", "C[C@H](O)S(F)(F)(F)(F)F"]      # round 3: six-coordinate atom without chiral tag and with unlike neighbours
 WHOLE_BLOCK = 6
 _SHARED = {}
 
